@@ -63,7 +63,8 @@ def main():
                 os._exit(1)
         dump()
         atheris.Setup([sys.argv[0], '-runs=%d' % (job['runs'] * 40), '-seed=%d' % job['seed'], '-max_len=16384',
-                       '-len_control=0', '-verbosity=1', '-print_final_stats=1', job['corpus']], target)
+                       '-len_control=0', '-verbosity=1', '-print_final_stats=1', '-report_slow_units=600', '-timeout=3600',
+                       '-artifact_prefix=' + os.path.join(os.path.dirname(job['corpus']), 'artifact-'), job['corpus']], target)
         atheris.Fuzz()
         dump()
     except SystemExit:
